@@ -87,6 +87,7 @@ func cmdCheck(args []string) int {
 	if !*updateClaims {
 		eng.localsBase = loadLocals(*verif)
 		eng.rangeKeyBase = loadRangeKeys(*verif)
+		eng.loopsBase = loadLoops(*verif)
 	}
 	kfs := loadKnownFindings(filepath.Join(*verif, "known_findings.json"))
 
@@ -212,6 +213,17 @@ func cmdCheck(args []string) int {
 			}
 		}
 		saveRangeKeys(*verif, rk)
+		lo := loadLoops(*verif)
+		for _, k := range order {
+			if t := eng.targets[k]; t != nil && own[k] {
+				if l := loopsOf(t); len(l) > 0 {
+					lo[k] = l
+				} else {
+					delete(lo, k)
+				}
+			}
+		}
+		saveLoops(*verif, lo)
 		var names []string
 		// only obligations of functions that carry the property themselves are claimed: a callee
 		// that merely drops out of the dependency closure after a harmless edit is not an alarm
